@@ -1,0 +1,35 @@
+//go:build verif
+// +build verif
+
+package service
+
+import (
+	"net"
+	"time"
+
+	"github.com/cnotch/ipchub/network/socket/listener"
+	"github.com/cnotch/ipchub/provider/auth"
+	"github.com/cnotch/ipchub/service/rtsp"
+	"github.com/cnotch/xlog"
+)
+
+// VerifServe starts the multiplexed listener (RTSP + HTTP/WebSocket) of the service on addr
+// ("127.0.0.1:0" for an ephemeral port), exactly as listen() does, and returns the bound address.
+func (s *Service) VerifServe(addr string, sniffTimeout time.Duration) (net.Addr, func(), error) {
+	l, err := listener.New(addr, nil)
+	if err != nil {
+		return nil, nil, err
+	}
+	l.SetReadTimeout(sniffTimeout)
+	l.HandleError(listener.ErrorHandler(func(err error) bool {
+		xlog.Warn(err.Error())
+		return true
+	}))
+	l.ServeAsync(rtsp.MatchRTSP(), s.rtsp.Serve)
+	l.ServeAsync(listener.MatchHTTP(), s.http.Serve)
+	go l.Serve()
+	return l.Addr(), func() { l.Close() }, nil
+}
+
+// VerifTokens exposes the token manager.
+func (s *Service) VerifTokens() *auth.TokenManager { return s.tokens }
